@@ -14,15 +14,15 @@ PROTOCOL = ['__iter__', '__len__', '__getitem__', '__delitem__', '__setitem__', 
 
 
 def run(chk):
-    r17a(chk)
-    r17b(chk)
-    r17c(chk)
+    chk.attempt(r17a, chk)
+    chk.attempt(r17b, chk)
+    chk.attempt(r17c, chk)
     from .c12 import r12d
     from .c15 import r15a
 
-    r17f(chk)
-    r12d(chk, 'R17.d')
-    r15a(chk, 'R17.e')
+    chk.attempt(r17f, chk)
+    chk.attempt(r12d, chk, 'R17.d')
+    chk.attempt(r15a, chk, 'R17.e')
 
 
 def _member(eff, ci, name):
